@@ -344,9 +344,19 @@ class Model:
             if not a.get("valid", True):
                 return Outcome(same, may_raise=True, must_raise=a.get("must_raise", False),
                                rejected=self._prefixes(S, items) if a.get("prefix_ok") else same)
-            states = [S.copy()]
-            for key, w, md in items:
-                states = [T2 for T in states for T2 in self._add_edge(T, key, w, md)][:32]
+            starts = [S.copy()]
+            if a.get("use_w") and not S.weighted:
+                # weights handed to an unweighted container: ignored (stays unweighted) or it becomes weighted from this
+                # batch on (existing hyperedges keep their weight 1); the statements pin neither, both are admissible
+                Tw = S.copy()
+                Tw.weighted = True
+                starts.append(Tw)
+            states = []
+            for T0 in starts:
+                sts = [T0]
+                for key, w, md in items:
+                    sts = [T2 for T in sts for T2 in self._add_edge(T, key, w, md)][:32]
+                states.extend(sts)
             # a weighted batch that literally repeats an element may be refused (documented) --
             # but not when the repeats differ in time / layer (C03/C04 statements)
             return Outcome(states, may_raise=a.get("may_refuse", False), rejected=same)
